@@ -104,9 +104,12 @@ pub fn read_facts_and_rules(file_name: &str) -> Result<Vec<String>, String> {
         Ok(lines) => {
 
             let mut line_number = 1;
+            let mut round_depth  = 0;
+            let mut square_depth = 0;
             for line in lines {
                 if let Ok(line) = line {
-                    let line = strip_comments(&line);
+                    let line = strip_comments_depth(&line, &mut round_depth,
+                                                    &mut square_depth);
                     if line.len() > 0 {
                         match check_last_char(&line, line_number) {
                             Some(msg) => { return Err(msg); },
@@ -173,11 +176,21 @@ where P: AsRef<Path>, {
 /// * `original line`
 /// # Return
 /// * `line without comments`
+#[cfg(test)]
 fn strip_comments(line: &str) -> String {
-
-    let mut previous = 'x';
     let mut round_depth  = 0;
     let mut square_depth = 0;
+    return strip_comments_depth(line, &mut round_depth, &mut square_depth);
+}
+
+// Strips comments from a line. The depth of parentheses and brackets is
+// carried over from the previous lines, because a term can be divided
+// between lines.
+fn strip_comments_depth(line: &str, round: &mut i32, square: &mut i32) -> String {
+
+    let mut previous = 'x';
+    let mut round_depth  = *round;
+    let mut square_depth = *square;
 
     let mut index = 0;
     let mut has_comment = false;
@@ -201,6 +214,9 @@ fn strip_comments(line: &str) -> String {
         }
         previous = *ch;
     }
+
+    *round = round_depth;
+    *square = square_depth;
 
     if has_comment {
         return chars_to_string!(chrs[0..index]).trim().to_string();
